@@ -103,8 +103,7 @@ def write_back(v: Verdict, case, view: str, where: str):
         setattr(q, view, value)
     except (ValueError, TypeError) as ex:
         if empty:
-            v.label("empty-set-writeback-refused")
-            return
+            v.label("empty-set-writeback")
         v.fail(f"{where}:{view}-writeback-raises", {"line": before["line"], "error": f"{type(ex).__name__}: {ex}"[:200]})
         return
     except IndexError as ex:
@@ -285,8 +284,6 @@ def judge_history(case) -> Verdict:
             else:
                 raise Invalid()
         except (ValueError, TypeError) as ex:
-            if not before["ports"] and name in ("ports", "sport"):
-                continue
             v.fail(f"hist:{cur['op']}:{name}-raises", {"before": before["line"], "error": f"{type(ex).__name__}: {ex}"[:200],
                                           "trace": case["ops"][: step + 1]})
             return v
@@ -353,5 +350,5 @@ def evidence_extra(total):
 MANIFEST = {
     "technique": "property-based testing: enumerated operator/operand grids + Hypothesis port expressions, interval-set codec cases and self-assignment histories against an independent interval-set model and decoder",
     "text": "exploration: no counterexample among every lt/gt operand (thorough), all boundary pairs for range, thousands of eq/neq/range expressions in names or numbers on both platforms, thousands of arbitrary port sets through the range-string codec, and op-list histories writing each view back into the same object",
-    "note": "trusted: lib/refsem.py interval algebra and a ten-line decoder; port universe 1..65535; order of .ports not judged; neq write-back through .ports sampled thinly (quadratic in the library); for empty sets (lt 1, gt 65535) a ValueError/TypeError on write-back is accepted, an IndexError or a changed expression is not",
+    "note": "trusted: lib/refsem.py interval algebra and a ten-line decoder; port universe 1..65535; order of .ports not judged; neq write-back through .ports sampled thinly (quadratic in the library); empty sets (lt 1, gt 65535) must write back unchanged like any other expression",
 }
